@@ -189,7 +189,24 @@ def check():
     def f(x): return x
     class K:
         def m(self, x): return x
+    # a dispatcher built before the permanent switch-off keeps dispatching on its guards afterwards (C12: "works with contracts globally disabled")
+    @deal.dispatch
+    def dd(x): raise NotImplementedError
+    @dd.register
+    @deal.pre(lambda x: x == 1)
+    def _(x): return "one"
+    @dd.register
+    @deal.pre(lambda x: x == 2)
+    def _(x): return "two"
     deal.disable(permament=True)
+    got = []
+    for arg in (1, 2, 3):
+        try: got.append(dd(arg))
+        except deal.NoMatchError: got.append("nomatch")
+        except BaseException as e: got.append(type(e).__name__)
+    out["dispatch_after_permanent_disable"] = got == ["one", "two", "nomatch"]
+    from deal._state import state as _st
+    out["switch_still_off_after_dispatch"] = _st.debug is False
     decs = {
         "pre": deal.pre(lambda x: x > 0), "post": deal.post(lambda r: r > 0), "ensure": deal.ensure(lambda _: True),
         "raises": deal.raises(ValueError), "reason": deal.reason(ValueError, lambda x: True), "has": deal.has(),
@@ -280,6 +297,26 @@ def check_decorated_while_disabled():
     for arg in (1, 2, 3):
         raised(d, arg)
         out[f"disabled_after_dispatch_{arg}"] = (state.debug is False) and raised(f, -1) is None
+    deal.enable()
+    # a contracted generator suspended between two items does not hold the switch: no disable() was issued, so contracts are in force
+    @deal.post(lambda r: r >= 0)
+    @deal.has()
+    def numbers():
+        yield 1
+        yield 2
+    it = numbers(); next(it)
+    out["enabled_while_generator_suspended"] = (state.debug is True) and raised(f, -1) == "PreContractError"
+    it.close()
+    async def _co():
+        @deal.pre(lambda: True)
+        async def inner():
+            import asyncio
+            await asyncio.sleep(0)
+            return (state.debug is True) and raised(f, -1) == "PreContractError"
+        return await inner()
+    import asyncio
+    out["enabled_inside_contracted_coroutine"] = asyncio.run(_co())
+    deal.disable()
     # the case runners of the test / memtest commands switch contracts off and on around each case: afterwards the last effective
     # switch (here: disabled; under -O the mirror image, enabled by hand) decides again
     import io
